@@ -298,11 +298,16 @@ def concurrent_pairs(c, rep):
                 res.add(tuple(sorted([la[0], lb[0]])))
     return res
 
-def classify_nonlinearizable(c, rep):
-    """mechanism signature of a non-linearizable history, from the ops that ran concurrently"""
+def classify_nonlinearizable(c, rep, facts=None):
+    """mechanism signature of a non-linearizable history, from the ops of the case and the regenerated lock shape"""
     kinds = {l.split()[0] for t in c["threads"] for l in t}
     if c["backend"] == "mem":
-        if "snap_rollback" in kinds and "save_message" in kinds:
+        # memory save_message in more than one lock section (existence check under the read lock, insertion under
+        # the write lock) is the repaired defect; only then can a save_message / rollback race be that mechanism
+        shape = (facts or {}).get("lockShape", "")
+        m = re.search(r'\(0, 4, "save_message", \[([^\]]*)\]', shape)
+        save_message_split = bool(m) and m.group(1).count("(") > 1
+        if "snap_rollback" in kinds and "save_message" in kinds and (save_message_split or facts is None):
             return "mem-save-message-check-then-act"
         if kinds & {"snap_create", "snap_rollback"}:
             return "mem-snapshot-two-locks"
